@@ -7,6 +7,7 @@ package wire
 
 import (
 	"fmt"
+	"net"
 	"strings"
 
 	"github.com/miekg/dns"
@@ -703,6 +704,64 @@ func vkGrammarForeign(r *vkRun) {
 		}
 	}
 	r.do("foreign|nil-msg|", func() *dns.Msg { return nil })
+	vkGrammarOddAddresses(r)
+}
+
+// G7b records whose address fields hold a value of the wrong length or family, as code that builds
+// records from net.IP values can produce them (the library skips or pads such fields while packing:
+// whatever the pooled buffer held there before must not show through).
+func vkGrammarOddAddresses(r *vkRun) {
+	v6 := net.ParseIP("2001:db8::1")
+	hdr := func(t uint16) dns.RR_Header {
+		return dns.RR_Header{Name: "a.example.org.", Rrtype: t, Class: dns.ClassINET, Ttl: 300}
+	}
+	odd := []struct {
+		id string
+		mk func() dns.RR
+	}{
+		{"a-holds-v6", func() dns.RR { return &dns.A{Hdr: hdr(dns.TypeA), A: v6} }},
+		{"a-nil", func() dns.RR { return &dns.A{Hdr: hdr(dns.TypeA)} }},
+		{"a-5-octets", func() dns.RR { return &dns.A{Hdr: hdr(dns.TypeA), A: net.IP{1, 2, 3, 4, 5}} }},
+		{"a-3-octets", func() dns.RR { return &dns.A{Hdr: hdr(dns.TypeA), A: net.IP{1, 2, 3}} }},
+		{"aaaa-holds-v4", func() dns.RR { return &dns.AAAA{Hdr: hdr(dns.TypeAAAA), AAAA: net.IP{192, 0, 2, 1}} }},
+		{"aaaa-nil", func() dns.RR { return &dns.AAAA{Hdr: hdr(dns.TypeAAAA)} }},
+		{"aaaa-15-octets", func() dns.RR { return &dns.AAAA{Hdr: hdr(dns.TypeAAAA), AAAA: make(net.IP, 15)} }},
+		{"l32-holds-v6", func() dns.RR { return &dns.L32{Hdr: hdr(dns.TypeL32), Preference: 10, Locator32: v6} }},
+		{"ipseckey-gw1-holds-v6", func() dns.RR {
+			return &dns.IPSECKEY{Hdr: hdr(dns.TypeIPSECKEY), Precedence: 10, GatewayType: 1, Algorithm: 2, GatewayAddr: v6, PublicKey: "AQNRU3mG7TVTO2BkR47usntb102uFJtugbo6BSGvgqt4AQ=="}
+		}},
+		{"ipseckey-gw2-holds-v4", func() dns.RR {
+			return &dns.IPSECKEY{Hdr: hdr(dns.TypeIPSECKEY), Precedence: 10, GatewayType: 2, Algorithm: 2, GatewayAddr: net.IP{192, 0, 2, 1}, PublicKey: "AQNRU3mG7TVTO2BkR47usntb102uFJtugbo6BSGvgqt4AQ=="}
+		}},
+		{"amtrelay-gw1-holds-v6", func() dns.RR {
+			return &dns.AMTRELAY{Hdr: hdr(dns.TypeAMTRELAY), Precedence: 10, GatewayType: 1, GatewayAddr: v6}
+		}},
+		{"apl-odd", func() dns.RR {
+			return &dns.APL{Hdr: hdr(dns.TypeAPL), Prefixes: []dns.APLPrefix{{Network: net.IPNet{IP: v6, Mask: net.CIDRMask(24, 32)}}}}
+		}},
+	}
+	for _, o := range odd {
+		for sec := 0; sec < 3; sec++ {
+			for _, comp := range []bool{false, true} {
+				o, sec, comp := o, sec, comp
+				r.do(fmt.Sprintf("oddaddr|%s|sec%d|c%v", o.id, sec, comp), func() *dns.Msg {
+					m := new(dns.Msg)
+					m.Id, m.Response, m.Compress = 29, true, comp
+					m.Question = []dns.Question{vkQ("a.example.org.", dns.TypeA)}
+					list := []dns.RR{vkA("a.example.org.", 1), o.mk(), vkA("a.example.org.", 2)}
+					switch sec {
+					case 0:
+						m.Answer = list
+					case 1:
+						m.Ns = list
+					default:
+						m.Extra = list
+					}
+					return m
+				})
+			}
+		}
+	}
 }
 
 // G8 sequences of 2-3 packs through one pooled state (on top of the reuse every case already gets).
